@@ -10,4 +10,4 @@ mkdir -p "$S"
 rsync -a --exclude target --exclude .git "$REPO"/ "$S"/src/
 cat "$HERE"/replay/*.rs >> "$S/src/air/tests/test_module/negative_tests/uncatchable_trace_related.rs"
 cd "$S/src"
-CARGO_TARGET_DIR="${VERIF_E2E_TARGET:-$S/target}" RUST_BACKTRACE=0 CARGO_NET_OFFLINE=true cargo test -p aquavm-air --features air-test-utils/test_with_native_code --offline --test test_module "${1:-verif_}" -- --test-threads 1 --nocapture 2>&1 | grep -E "^test |panicked at|test result|^error|VERIF F4" | head -80
+CARGO_TARGET_DIR="${VERIF_E2E_TARGET:-$S/target}" RUST_BACKTRACE=0 CARGO_NET_OFFLINE=true cargo test -p aquavm-air --features air-test-utils/test_with_native_code --offline --test test_module "${1:-verif_}" -- --test-threads 1 --nocapture 2>&1 | grep -E "^test |panicked at|test result|^error|VERIF F4" | tail -40
